@@ -46,7 +46,7 @@ type streams struct {
 type kkind struct {
 	name     string
 	ddl      string
-	lean     string // r | c | n
+	lean     string // r raw | c ci text | n numeric (fractions possible) | z integral numeric
 	text     bool
 	integral bool
 	nonneg   bool
@@ -74,8 +74,8 @@ var textKinds = []kkind{
 }
 
 var numKinds = []kkind{
-	{name: "int", ddl: "int", lean: "n", integral: true},
-	{name: "u64", ddl: "bigint unsigned", lean: "n", integral: true, nonneg: true},
+	{name: "int", ddl: "int", lean: "z", integral: true},
+	{name: "u64", ddl: "bigint unsigned", lean: "z", integral: true, nonneg: true},
 	{name: "d1", ddl: "decimal(8,1)", lean: "n", lit: decLit(1)},
 	{name: "d3", ddl: "decimal(8,3)", lean: "n", lit: decLit(3)},
 	{name: "dbl", ddl: "double", lean: "n", lit: func(m int64, r *hx.Rand) string {
@@ -135,6 +135,9 @@ type keqInfo struct {
 	// variants: two stored key values (anywhere in the database) are equal as join keys but are not
 	// the same stored value ('Bob' / 'BOB', 1 / 1.0) — Gms.PhysRegions.dbHasKeyVariants
 	variants bool
+	// integralCol: some key column is INT / BIGINT UNSIGNED; fractional: some stored value of a
+	// DECIMAL / DOUBLE key column is not an integer
+	integralCol, fractional bool
 }
 
 var foldMap = map[rune]rune{'á': 'a', 'é': 'e', 'í': 'i', 'ó': 'o', 'ö': 'o', 'ú': 'u', 'ü': 'u', 'ñ': 'n', 'ç': 'c'}
@@ -153,7 +156,7 @@ func normKey(kd kkind, v sqlgen.Value) string {
 			b.WriteRune(c)
 		}
 		return "s" + b.String()
-	case kd.lean == "n" && !v.IsStr:
+	case (kd.lean == "n" || kd.lean == "z") && !v.IsStr:
 		return "n" + strconv.FormatInt(v.I*1000, 10)
 	case kd.lean == "n":
 		f, _ := strconv.ParseFloat(v.S, 64)
@@ -315,7 +318,7 @@ func (k *keqGen) genDb() (*sqlgen.Db, *keqInfo, []string) {
 		db.Tables = append(db.Tables, st)
 		k.st.out.Stat("keq:kind:" + kd.name)
 	}
-	info.variants = keyVariants(db, info)
+	info.finish(db)
 	var ks []string
 	for _, t := range info.tabs {
 		var cs []string
@@ -407,7 +410,11 @@ func (k *keqGen) query(db *sqlgen.Db, info *keqInfo) qcase {
 		var p *sqlgen.Expr
 		var sub *sqlgen.Query = sqlgen.TableQ(t1)
 		neg := r.Chance(2, 5)
-		if r.Bool() {
+		// IN (subquery) between an integral and a fraction-capable numeric type: plan.InSubquery converts
+		// the probe to the subquery's type (0.5 IN (SELECT <bigint>) finds 1) under EVERY plan — a defect,
+		// but not a plan dependence (C02/C07 territory): such pairs get EXISTS only.
+		sameClass := info.tabs[t0].kinds[1].lean == info.tabs[t1].kinds[1].lean
+		if sameClass && r.Bool() {
 			if r.Chance(1, 3) {
 				sub = sqlgen.Filter(sqlgen.Cmp(hx.Pick(r, []string{"lt", "ge", "ne"}), c(2), sqlgen.Lit(sqlgen.Int(int64(r.Range(0, 3))))), sub)
 			}
@@ -431,40 +438,134 @@ func (k *keqGen) query(db *sqlgen.Db, info *keqInfo) qcase {
 	}
 }
 
-// keqCorpus: the witness of the stream's reason to exist — case/accent variants of one word on both
-// sides, every index layout that gives the memo a hash, merge and lookup alternative.
-func keqCorpus() (*sqlgen.Db, *keqInfo, []string, []qcase) {
-	kd := textKinds[0]
-	mk := func(n int, words []interface{}, extra string) (*sqlgen.Table, *keqTable) {
-		st := &sqlgen.Table{Tys: []sqlgen.Ty{sqlgen.TInt, sqlgen.TStr, sqlgen.TInt}, NotNull: []bool{true, false, false}}
-		var rows []string
-		for i, wv := range words {
-			if wv == nil {
-				st.Rows = append(st.Rows, []sqlgen.Value{sqlgen.Int(int64(i + 1)), sqlgen.Null(), sqlgen.Int(int64(i % 3))})
-				rows = append(rows, fmt.Sprintf("(%d, NULL, %d)", i+1, i%3))
-				continue
+// mkKeqTable builds one table of a corpus database from literal rows ("NULL", "'bob'", "1.5", "3").
+func mkKeqTable(n int, kds []kkind, extra string, rows [][]string) (*sqlgen.Table, *keqTable) {
+	st := &sqlgen.Table{}
+	var cols []string
+	for j, kd := range kds {
+		ty, ddl := sqlgen.TInt, "int"
+		if kd.name != "" {
+			ddl = kd.ddl
+			if kd.text || kd.lit != nil {
+				ty = sqlgen.TStr
 			}
-			s := wv.(string)
-			st.Rows = append(st.Rows, []sqlgen.Value{sqlgen.Int(int64(i + 1)), sqlgen.Str(s), sqlgen.Int(int64(i % 3))})
-			rows = append(rows, fmt.Sprintf("(%d, '%s', %d)", i+1, s, i%3))
 		}
-		t := &keqTable{kinds: []kkind{{}, kd, {}}}
-		t.ddl = fmt.Sprintf("CREATE TABLE t%d (c0 int NOT NULL, c1 %s, c2 int%s)", n, kd.ddl, extra)
-		t.ins = fmt.Sprintf("INSERT INTO t%d VALUES %s", n, strings.Join(rows, ", "))
-		return st, t
+		st.Tys = append(st.Tys, ty)
+		st.NotNull = append(st.NotNull, false)
+		cols = append(cols, fmt.Sprintf("c%d %s", j, ddl))
 	}
-	s0, k0 := mk(0, []interface{}{"Bob", "BOB", "José", nil, "alice", "zed"}, ", KEY k1 (c1)")
-	s1, k1 := mk(1, []interface{}{"bob", "jose", "JOSE", nil, "ALICE", "bób"}, ", KEY k1 (c1)")
-	db := &sqlgen.Db{Tables: []*sqlgen.Table{s0, s1}}
-	info := &keqInfo{tabs: []*keqTable{k0, k1}, kindS: "(kinds (r c r) (r c r))", fam: "text", variants: true}
+	var ins []string
+	for _, row := range rows {
+		vals := make([]sqlgen.Value, len(row))
+		for j, l := range row {
+			switch {
+			case l == "NULL":
+				vals[j] = sqlgen.Null()
+			case strings.HasPrefix(l, "'"):
+				vals[j] = sqlgen.Str(strings.Trim(l, "'"))
+			case st.Tys[j] == sqlgen.TStr:
+				vals[j] = sqlgen.Str(l)
+			default:
+				i, _ := strconv.ParseInt(l, 10, 64)
+				vals[j] = sqlgen.Int(i)
+			}
+		}
+		st.Rows = append(st.Rows, vals)
+		ins = append(ins, "("+strings.Join(row, ", ")+")")
+	}
+	t := &keqTable{kinds: kds}
+	t.ddl = fmt.Sprintf("CREATE TABLE t%d (%s%s)", n, strings.Join(cols, ", "), extra)
+	t.ins = fmt.Sprintf("INSERT INTO t%d VALUES %s", n, strings.Join(ins, ", "))
+	return st, t
+}
+
+type keqWitness struct {
+	db    *sqlgen.Db
+	info  *keqInfo
+	setup []string
+	qs    []qcase
+}
+
+func mkKeqDb(fam string, tabs ...func(n int) (*sqlgen.Table, *keqTable)) keqWitness {
+	w := keqWitness{db: &sqlgen.Db{}, info: &keqInfo{fam: fam}}
+	var ks []string
+	for n, f := range tabs {
+		st, t := f(n)
+		w.db.Tables = append(w.db.Tables, st)
+		w.info.tabs = append(w.info.tabs, t)
+		w.setup = append(w.setup, t.ddl, t.ins)
+		var cs []string
+		for _, kd := range t.kinds {
+			if kd.name == "" {
+				cs = append(cs, "r")
+			} else {
+				cs = append(cs, kd.lean)
+			}
+		}
+		ks = append(ks, "("+strings.Join(cs, " ")+")")
+	}
+	w.info.kindS = "(kinds " + strings.Join(ks, " ") + ")"
+	w.info.finish(w.db)
+	return w
+}
+
+// finish computes the value-class flags the region predicates are decided on.
+func (info *keqInfo) finish(db *sqlgen.Db) {
+	info.variants = keyVariants(db, info)
+	for n, t := range db.Tables {
+		for j, kd := range info.tabs[n].kinds {
+			if kd.lean == "z" {
+				info.integralCol = true
+			}
+			if kd.lean == "n" {
+				for _, row := range t.Rows {
+					if !row[j].Null && !strings.HasSuffix(normKey(kd, row[j]), "000") && normKey(kd, row[j]) != "n0" {
+						info.fractional = true
+					}
+				}
+			}
+		}
+	}
+}
+
+// keqCorpus: (1) the witness of the stream's reason to exist — case/accent variants of one word on
+// both sides of an indexed key, so that hash, merge, lookup and nested-loop plans exist; (2)-(4) the
+// witnesses of the stream's three known findings (known_findings/C01.jsonl).
+func keqCorpus() []keqWitness {
+	ci, plain := textKinds[0], kkind{}
+	tab := func(kds []kkind, extra string, rows ...[]string) func(int) (*sqlgen.Table, *keqTable) {
+		return func(n int) (*sqlgen.Table, *keqTable) { return mkKeqTable(n, kds, extra, rows) }
+	}
+	r := func(vs ...string) []string { return vs }
 	c := func(i int) *sqlgen.Expr { return sqlgen.Col(0, i) }
 	ii := []sqlgen.Ty{sqlgen.TInt, sqlgen.TInt}
-	var qs []qcase
+	ick := []kkind{plain, ci, plain}
+	// (1)
+	w1 := mkKeqDb("text",
+		tab(ick, ", KEY k1 (c1)", r("1", "'Bob'", "0"), r("2", "'BOB'", "1"), r("3", "'José'", "2"), r("4", "NULL", "0"), r("5", "'alice'", "1"), r("6", "'zed'", "2")),
+		tab(ick, ", KEY k1 (c1)", r("1", "'bob'", "0"), r("2", "'jose'", "1"), r("3", "'JOSE'", "2"), r("4", "NULL", "0"), r("5", "'ALICE'", "1"), r("6", "'bób'", "2")))
 	for _, kind := range []string{"inner", "left"} {
-		on := sqlgen.Cmp("eq", c(1), c(4))
-		qs = append(qs, qcase{q: sqlgen.Project([]*sqlgen.Expr{c(0), c(3)}, sqlgen.Join(kind, on, sqlgen.TableQ(0), sqlgen.TableQ(1))), tys: ii, kind: "keq", keq: info})
+		q := sqlgen.Project([]*sqlgen.Expr{c(0), c(3)}, sqlgen.Join(kind, sqlgen.Cmp("eq", c(1), c(4)), sqlgen.TableQ(0), sqlgen.TableQ(1)))
+		w1.qs = append(w1.qs, qcase{q: q, tys: ii, kind: "keq", keq: w1.info})
 	}
-	return db, info, []string{k0.ddl, k0.ins, k1.ddl, k1.ins}, qs
+	// (2) hash_join_tuple_key_not_by_equality
+	w2 := mkKeqDb("text",
+		tab([]kkind{plain, ci, ci}, "", r("1", "'bob'", "'x'"), r("2", "'BOB'", "'x'"), r("3", "'bob'", "'X'"), r("4", "'Bob'", "'X'"), r("5", "'bób'", "'x'")),
+		tab([]kkind{plain, ci, ci}, "", r("1", "'bob'", "'x'")))
+	w2.qs = []qcase{{q: sqlgen.Project([]*sqlgen.Expr{c(0), c(3)}, sqlgen.Join("inner", sqlgen.Bin("and", sqlgen.Cmp("eq", c(1), c(4)), sqlgen.Cmp("eq", c(2), c(5))), sqlgen.TableQ(0), sqlgen.TableQ(1))),
+		tys: ii, kind: "keq", keq: w2.info}}
+	// (3) semi_join_distinct_not_by_key_equality
+	w3 := mkKeqDb("text",
+		tab([]kkind{plain, ci}, "", r("1", "'bób'"), r("2", "'zed'")),
+		tab([]kkind{plain, ci}, "", r("1", "'bob'"), r("2", "'BOB'"), r("3", "'bob'")))
+	w3.qs = []qcase{{q: sqlgen.Project([]*sqlgen.Expr{c(0)}, sqlgen.Filter(sqlgen.InSub(c(1), sqlgen.Project([]*sqlgen.Expr{c(1)}, sqlgen.TableQ(1))), sqlgen.TableQ(0))),
+		tys: []sqlgen.Ty{sqlgen.TInt}, kind: "keq", keq: w3.info}}
+	// (4) lookup_join_probe_key_rounded
+	w4 := mkKeqDb("num",
+		tab([]kkind{plain, numKinds[4]}, ", PRIMARY KEY (c0), KEY k1 (c1)", r("1", "3.0"), r("3", "2.5")),
+		tab([]kkind{plain, numKinds[1]}, ", KEY k1 (c1)", r("1", "2"), r("2", "3")))
+	w4.qs = []qcase{{q: sqlgen.Project([]*sqlgen.Expr{c(0), c(2)}, sqlgen.Join("inner", sqlgen.Cmp("eq", c(1), c(3)), sqlgen.TableQ(0), sqlgen.TableQ(1))), tys: ii, kind: "keq", keq: w4.info}}
+	return []keqWitness{w1, w2, w3, w4}
 }
 
 func (s *streams) keqStream() {
@@ -478,14 +579,16 @@ func (s *streams) keqStream() {
 	runDb := func(db *sqlgen.Db, info *keqInfo, setup []string, qs []qcase) {
 		e, ctx, dbS, setupS := s.openWith(db, setup)
 		for _, qc := range qs {
-			text := (&sqlgen.Printer{Db: db}).SQL(qc.q)
+			text := unaliasIn((&sqlgen.Printer{Db: db}).SQL(qc.q))
 			s.runQuery(cx, e, ctx, info.kindS+" "+dbS, setupS, qc, text, nil)
 		}
 		s.out.Stat("db:keq")
 		s.out.Stat("keq:family:" + info.fam)
 	}
-	db, info, setup, qs := keqCorpus()
-	runDb(db, info, setup, qs)
+	for _, w := range keqCorpus() {
+		runDb(w.db, w.info, w.setup, w.qs)
+		s.out.Stat("corpus")
+	}
 	for i := 0; i < nDb; i++ {
 		db, info, setup := kg.genDb()
 		var qs []qcase
@@ -498,6 +601,13 @@ func (s *streams) keqStream() {
 
 // planOpsKeq: the operator skeleton plus the `Distinct` nodes (the memo turns a semi join into an
 // inner join over a DISTINCT right side; a region of this stream is decided on it).
+// unaliasIn: the shared printer gives every select item an alias; `x IN (SELECT s2.c1 AS c0 FROM …)` is
+// left as a per-row InSubquery filter by the analyzer, `x IN (SELECT s2.c1 FROM …)` becomes a semi /
+// anti join with a choice of physical operators — which is what this property is about.
+var inAliasRe = regexp.MustCompile(`IN \(SELECT (s\d+\.c\d+) AS c0 FROM`)
+
+func unaliasIn(text string) string { return inAliasRe.ReplaceAllString(text, "IN (SELECT $1 FROM") }
+
 var tupleKeyRe = regexp.MustCompile(`(?m)left-key: \([^)\n]*,`)
 
 func planOpsKeq(text string) []string {
@@ -528,6 +638,12 @@ func planOpsKeq(text string) []string {
 func keqRegion(qc qcase, ops []string) string {
 	if hasOp(ops, "TupleKey") && qc.keq.variants {
 		return "hash_join_tuple_key_not_by_equality"
+	}
+	if hasExactOp(ops, "Distinct") && qc.keq.variants {
+		return "semi_join_distinct_not_by_key_equality"
+	}
+	if qc.keq.integralCol && qc.keq.fractional && hasLookupOp(ops) {
+		return "lookup_join_probe_key_rounded"
 	}
 	return "-"
 }
